@@ -54,21 +54,21 @@ type C06LifeCase struct {
 }
 
 func genC06Beh(t *rapid.T) C06Beh {
-	switch rapid.IntRange(0, 11).Draw(t, "beh") {
+	switch pIdx(t, "beh", 12) {
 	case 0, 1:
-		return C06Beh{K: "status", S: rapid.SampledFrom([]int{200, 201, 204, 299}).Draw(t, "ok")}
+		return C06Beh{K: "status", S: pFrom(t, "ok", []int{200, 201, 204, 299})}
 	case 2, 3, 4:
-		return C06Beh{K: "status", S: rapid.SampledFrom([]int{500, 502, 503, 504, 599, 429, 408}).Draw(t, "retryable")}
+		return C06Beh{K: "status", S: pFrom(t, "retryable", []int{500, 502, 503, 504, 599, 429, 408})}
 	case 5:
-		return C06Beh{K: "status", S: rapid.SampledFrom([]int{400, 401, 403, 404, 410, 422, 499}).Draw(t, "fatal")}
+		return C06Beh{K: "status", S: pFrom(t, "fatal", []int{400, 401, 403, 404, 410, 422, 499})}
 	case 6:
-		return C06Beh{K: "status", S: rapid.SampledFrom([]int{100, 101, 199, 300, 301, 302, 304, 307, 399}).Draw(t, "odd")}
+		return C06Beh{K: "status", S: pFrom(t, "odd", []int{100, 101, 199, 300, 301, 302, 304, 307, 399})}
 	case 7:
-		return C06Beh{K: "status", S: rapid.IntRange(100, 599).Draw(t, "any")}
+		return C06Beh{K: "status", S: pRange(t, "any", 100, 599)}
 	case 8, 9:
-		return C06Beh{K: "err", E: rapid.SampledFrom([]string{"timeout-ctx", "timeout-net", "refused", "dns"}).Draw(t, "neterr")}
+		return C06Beh{K: "err", E: pFrom(t, "neterr", []string{"timeout-ctx", "timeout-net", "refused", "dns"})}
 	case 10:
-		return C06Beh{K: "err", E: rapid.SampledFrom([]string{"policy", "policy-wrapped", "policy-urlerr"}).Draw(t, "polerr")}
+		return C06Beh{K: "err", E: pFrom(t, "polerr", []string{"policy", "policy-wrapped", "policy-urlerr"})}
 	}
 	return C06Beh{K: "hang"}
 }
@@ -76,25 +76,25 @@ func genC06Beh(t *rapid.T) C06Beh {
 func genC06LifeCase() *rapid.Generator[C06LifeCase] {
 	return rapid.Custom(func(t *rapid.T) C06LifeCase {
 		var c C06LifeCase
-		c.Backend = rapid.SampledFrom([]string{"memory", "memory", "sqlite"}).Draw(t, "backend")
-		nt := rapid.SampledFrom([]int{1, 1, 1, 2, 3}).Draw(t, "ntargets")
+		c.Backend = pFrom(t, "backend", []string{"memory", "memory", "sqlite"})
+		nt := pFrom(t, "ntargets", []int{1, 1, 1, 2, 3})
 		for i := 0; i < nt; i++ {
-			tg := C06LifeTarget{Retry: genC06Retry(t, true, false), TimeoutMs: rapid.IntRange(1, 3).Draw(t, "timeout_ms")}
+			tg := C06LifeTarget{Retry: genC06Retry(t, true, false), TimeoutMs: pRange(t, "timeout_ms", 1, 3)}
 			tg.Script = rapid.SliceOfN(rapid.Custom(genC06Beh), 0, 10).Draw(t, "script")
 			tg.Tail = genC06Beh(t)
-			if tg.Tail.K == "hang" && rapid.Bool().Draw(t, "tail_ok") {
+			if tg.Tail.K == "hang" && pChance(t, "tail_ok", 1, 2) {
 				tg.Tail = C06Beh{K: "status", S: 200}
 			}
 			c.Targets = append(c.Targets, tg)
 		}
-		c.Msgs = rapid.SliceOfN(rapid.IntRange(0, nt-1), 1, 6).Draw(t, "msgs")
-		c.Conc = rapid.SampledFrom([]int{1, 2, 3, 4, 8}).Draw(t, "conc")
-		c.BatchStore = rapid.IntRange(0, 3).Draw(t, "batch_store") != 0
-		if c.BatchStore && rapid.Bool().Draw(t, "fail_batch") {
-			c.FailBatchAt = rapid.IntRange(1, 4).Draw(t, "fail_batch_at")
+		c.Msgs = rapid.SliceOfN(rapid.Custom(func(t *rapid.T) int { return pIdx(t, "msg_target", nt) }), 1, 6).Draw(t, "msgs")
+		c.Conc = pFrom(t, "conc", []int{1, 2, 3, 4, 8})
+		c.BatchStore = !pChance(t, "plain_store", 1, 4)
+		if c.BatchStore && pChance(t, "fail_batch", 1, 2) {
+			c.FailBatchAt = pRange(t, "fail_batch_at", 1, 4)
 		}
-		c.Requeue = rapid.SampledFrom([]int{0, 0, 1, 2}).Draw(t, "requeue")
-		c.Retain = rapid.Bool().Draw(t, "retain")
+		c.Requeue = pFrom(t, "requeue", []int{0, 0, 1, 2})
+		c.Retain = pChance(t, "retain", 1, 2)
 		c.Seed = int64(rapid.IntRange(1, 1<<30).Draw(t, "seed"))
 		return c
 	})
@@ -639,17 +639,16 @@ type C06LiveCase struct {
 func genC06LiveCase() *rapid.Generator[C06LiveCase] {
 	return rapid.Custom(func(t *rapid.T) C06LiveCase {
 		var c C06LiveCase
-		c.Backend = rapid.SampledFrom([]string{"memory", "memory", "sqlite"}).Draw(t, "backend")
-		nt := rapid.IntRange(1, 3).Draw(t, "ntargets")
+		c.Backend = pFrom(t, "backend", []string{"memory", "memory", "sqlite"})
+		nt := pRange(t, "ntargets", 1, 3)
 		for i := 0; i < nt; i++ {
-			c.Max = append(c.Max, rapid.SampledFrom([]string{"1", "2", "3", "4"}).Draw(t, "max"))
-			c.Jitter = append(c.Jitter, rapid.SampledFrom([]string{"0", "0.2", "1"}).Draw(t, "jitter"))
+			c.Max = append(c.Max, pFrom(t, "max", []string{"1", "2", "3", "4"}))
+			c.Jitter = append(c.Jitter, pFrom(t, "jitter", []string{"0", "0.2", "1"}))
 		}
 		c.Msgs = rapid.SliceOfN(rapid.Custom(func(t *rapid.T) C06LiveMsg {
-			return C06LiveMsg{Target: rapid.IntRange(0, nt-1).Draw(t, "target"),
-				Script: rapid.SliceOfN(rapid.Custom(genC06Beh), 1, 6).Draw(t, "script")}
+			return C06LiveMsg{Target: pIdx(t, "target", nt), Script: rapid.SliceOfN(rapid.Custom(genC06Beh), 1, 6).Draw(t, "script")}
 		}), 1, 12).Draw(t, "msgs")
-		c.Conc = rapid.IntRange(1, 8).Draw(t, "conc")
+		c.Conc = pRange(t, "conc", 1, 8)
 		return c
 	})
 }
